@@ -188,6 +188,20 @@ func readsFor(sc sscope, d Data, name string, salt int, choose func(n int) int) 
 	return out
 }
 
+// only keeps the reads of the given positions (cheaper probes where the full set adds nothing).
+func only(n Node, pos ...string) Node {
+	var kept []Read
+	for _, r := range n.Probe.Reads {
+		for _, p := range pos {
+			if r.Pos == p {
+				kept = append(kept, r)
+			}
+		}
+	}
+	n.Probe.Reads = kept
+	return n
+}
+
 func uniq(names []string) []string {
 	seen := map[string]bool{}
 	var out []string
@@ -253,15 +267,20 @@ type rootSetup struct {
 	scalars []Slot   // other root values
 	shadow  []string // root scalar names a loop variable can shadow
 	idxName string   // root int name the index variable can shadow
+	only    string   // "" = every collection kind; else the one kind this root can hold
 }
 
 func rootSetups() []rootSetup {
 	mapScalars := []Slot{{"name", vals.Str("RN")}, {"total", vals.Int(7)}}
 	stScalars := []Slot{{"Name", vals.Str("RN")}, {"Label", vals.Str("RL")}, {"Total", vals.Int(7)}}
+	recScalars := []Slot{{"Name", vals.Str("RN")}, {"Title", vals.Str("RT")}, {"Count", vals.Int(7)}}
 	return []rootSetup{
 		{kind: "map", coll: "xs", slot: "xs", scalars: mapScalars, shadow: []string{"name"}, idxName: "total"},
 		{kind: "root", coll: "Xs", slot: "Xs", scalars: stScalars, shadow: []string{"Name", "label"}, idxName: "total"},
 		{kind: "*root", coll: "ys", slot: "Ys", scalars: stScalars, shadow: []string{"Label", "Name"}, idxName: "Total"},
+		// vals.Rec as root: its only sequence field is Kids []Rec
+		{kind: "rec", coll: "Kids", slot: "Kids", scalars: recScalars, shadow: []string{"Name", "title"}, idxName: "Count", only: "[]rec"},
+		{kind: "*rec", coll: "Kids", slot: "Kids", scalars: recScalars, shadow: []string{"Title", "Name"}, idxName: "count", only: "[]rec"},
 	}
 }
 
@@ -288,6 +307,9 @@ func core1(full bool, yield func(Case) bool) {
 	i, rot := 0, 0
 	for _, rs := range rootSetups() {
 		for _, coll := range colls {
+			if rs.only != "" && coll.K != rs.only && coll.K != "missing" {
+				continue
+			}
 			d := Data{Root: rs.kind, Slots: append(append([]Slot{}, rs.scalars...), Slot{rs.slot, coll})}
 			if coll.K == "missing" {
 				d.Slots = d.Slots[:len(d.Slots)-1]
@@ -354,22 +376,22 @@ func core1(full bool, yield func(Case) bool) {
 							if s[0].K == "bool" {
 								c = &Cond{Path: p[0]}
 							}
-							l.If = c
+							if !noExpr(p[0]) {
+								l.If = c
+							}
 						case "index":
 							l.If = &Cond{Path: idx, Op: "!=", Lit: vals.Int(1)}
 						case "index-none":
 							l.If = &Cond{Path: idx, Op: ">", Lit: vals.Int(9)}
 						}
-						names := []string{vn, idx}
-						for _, s := range rs.scalars {
-							names = append(names, s.N)
-						}
-						names = append(names, rs.shadow...)
+						// read: the loop's names and every root name a loop variable shadows in this setup
+						names := append([]string{vn, idx}, rs.shadow...)
+						names = append(names, rs.idxName)
 						l.Body = []Node{probeOf("p1", inner, d, names, i, nil)}
 						if cb.els >= 0 {
-							l.Else = &Else{ID: "E1", Sep: elseSeps[cb.els], Body: []Node{probeOf("p2", outer, d, names, i, nil)}}
+							l.Else = &Else{ID: "E1", Sep: elseSeps[cb.els], Body: []Node{only(probeOf("p2", outer, d, []string{vn, idx}, i, nil), "text", "tern")}}
 						}
-						c := Case{API: apis[i%3], Pretty: i%4 == 1, Data: d, Prog: []Node{{Loop: l}, probeOf("p3", outer, d, names, i, nil)}}
+						c := Case{API: apis[i%3], Pretty: i%4 == 1, Data: d, Prog: []Node{{Loop: l}, only(probeOf("p3", outer, d, names, i, nil), "text", "tern", "vif")}}
 						if !yield(c) {
 							return
 						}
@@ -428,11 +450,15 @@ func core2(yield func(Case) bool) {
 								inner := &Loop{ID: "L2", Tag: []string{"div", "section", "template"}[i%3], Idx: ii, Var: iv, Coll: innerColl,
 									Body: []Node{probeOf("p2", in, d, pool, i, nil)}}
 								if els {
-									inner.Else = &Else{ID: "E2", Sep: elseSeps[i%len(elseSeps)], Body: []Node{probeOf("p3", o, d, pool, i, nil)}}
+									inner.Else = &Else{ID: "E2", Sep: elseSeps[i%len(elseSeps)], Body: []Node{only(probeOf("p3", o, d, pool, i, nil), "text", "tern")}}
 								}
+								// a later loop with its own v-else: it must not be taken for the v-else of L2
+								tail := &Loop{ID: "L3", Tag: "section", Var: "t", Coll: ysN,
+									Body: []Node{only(probeOf("p6", o.with("t", vals.Str("p")), d, []string{"t", iv}, i, nil), "text")},
+									Else: &Else{ID: "E3", Sep: elseSeps[(i+1)%len(elseSeps)]}}
 								outer := &Loop{ID: "L1", Tag: "div", Idx: oi, Var: ov, Coll: xsN,
-									Body: []Node{probeOf("p1", o, d, pool, i, nil), {Loop: inner}, probeOf("p4", o, d, pool, i+1, nil)}}
-								c := Case{API: apis[i%3], Pretty: i%2 == 0, Data: d, Prog: []Node{{Loop: outer}, probeOf("p5", root, d, pool, i, nil)}}
+									Body: []Node{only(probeOf("p1", o, d, pool, i, nil), "text", "tern"), {Loop: inner}, only(probeOf("p4", o, d, pool, i+1, nil), "text", "vif"), {Loop: tail}}}
+								c := Case{API: apis[i%3], Pretty: i%2 == 0, Data: d, Prog: []Node{{Loop: outer}, only(probeOf("p5", root, d, pool, i, nil), "text", "tern")}}
 								if !yield(c) {
 									return
 								}
@@ -688,18 +714,24 @@ func (g *gen) loop(sc sscope, depth int, outerVars []string) []Node {
 			l.Bind = p[0]
 		}
 	}
-	l.Body = []Node{probeOf(g.id("p"), inner, g.d, names, g.int(0, 19, "salt"), g.chooser())}
+	// nested loops first, so that the probes of this instance can also read *their* variable
+	// names: before the nested loop they must still mean what they mean here, afterwards again
+	var nested []Node
+	var nestedNames []string
 	if depth < 3 {
-		nested := 0
 		for k := g.int(0, 2, "nnested"); k > 0; k-- {
 			inVars := uniq(append(append([]string{}, outerVars...), l.Var, l.Idx))
-			l.Body = append(l.Body, g.loop(inner, depth+1, inVars)...)
-			nested++
+			ns := g.loop(inner, depth+1, inVars)
+			nestedNames = append(nestedNames, ns[0].Loop.Var, ns[0].Loop.Idx)
+			nested = append(nested, ns...)
 		}
-		if nested > 0 {
-			// the loop's own bindings again, after the nested loops
-			l.Body = append(l.Body, probeOf(g.id("p"), inner, g.d, names, g.int(0, 19, "salt"), g.chooser()))
-		}
+	}
+	all := append(append([]string{}, names...), nestedNames...)
+	l.Body = []Node{probeOf(g.id("p"), inner, g.d, all, g.int(0, 19, "salt"), g.chooser())}
+	if len(nested) > 0 {
+		l.Body = append(l.Body, nested...)
+		// the loop's own bindings again, after the nested loops
+		l.Body = append(l.Body, probeOf(g.id("p"), inner, g.d, all, g.int(0, 19, "salt"), g.chooser()))
 	}
 	if g.int(0, 1, "else") == 1 {
 		l.Else = &Else{ID: g.id("E"), Sep: g.pick(elseSeps, "sep")}
